@@ -397,10 +397,10 @@ section
 variable {α : Type} [Field α] [LT α] [DecidableLT α]
 
 theorem copies_ne_nil_of_infection (s : Strat α) (f : Flow α) (hne : s.strata ≠ [])
-    (hk : isInfection f.kind = true) : copies s f ≠ [] := by
+    (hk : isInfection f.kind = true) : copiesA s f ≠ [] := by
   have h1 : isEntryKind f.kind = false := by cases hkk : f.kind <;> simp [hkk, isInfection] at hk <;> rfl
   have h2 : isDeath f.kind = false := by cases hkk : f.kind <;> simp [hkk, isInfection] at hk <;> rfl
-  unfold copies
+  unfold copiesA
   simp only [h1, h2, Bool.false_eq_true, if_false]
   split
   · simp
@@ -408,7 +408,7 @@ theorem copies_ne_nil_of_infection (s : Strat α) (f : Flow α) (hne : s.strata 
 
 theorem any_kind_copies (s : Strat α) (hne : s.strata ≠ []) (k : FlowKind) (hk : isInfection k = true)
     (flows : List (Flow α)) :
-    (flows.flatMap (copies s)).any (fun g => g.kind == k) = flows.any (fun f => f.kind == k) := by
+    (flows.flatMap (copiesA s)).any (fun g => g.kind == k) = flows.any (fun f => f.kind == k) := by
   induction flows with
   | nil => rfl
   | cons f fs ih =>
@@ -417,11 +417,11 @@ theorem any_kind_copies (s : Strat α) (hne : s.strata ≠ []) (k : FlowKind) (h
     by_cases hfk : f.kind = k
     · have hne' := copies_ne_nil_of_infection s f hne (by rw [hfk]; exact hk)
       obtain ⟨g, hg⟩ := List.exists_mem_of_ne_nil _ hne'
-      have : (copies s f).any (fun g => g.kind == k) = true := by
+      have : (copiesA s f).any (fun g => g.kind == k) = true := by
         rw [List.any_eq_true]
         exact ⟨g, hg, by rw [copies_kind s f g hg, hfk]; simp⟩
       rw [this, hfk]; simp
-    · have : (copies s f).any (fun g => g.kind == k) = false := by
+    · have : (copiesA s f).any (fun g => g.kind == k) = false := by
         rw [List.any_eq_false]
         intro g hg
         rw [copies_kind s f g hg]
@@ -438,7 +438,7 @@ theorem any_kind_extra (comps : List Comp) (s : Strat α) (extra : List (Flow α
 
 theorem procType_eq {m m' : Model α} {s : Strat α} {b b' : Backend} (ht : FoiTables m b) (ht' : FoiTables m' b')
     (hne : s.strata ≠ []) (extra : List (Flow α))
-    (hflows : m'.flows = m.flows.flatMap (copies s) ++ extra)
+    (hflows : m'.flows = m.flows.flatMap (copiesA s) ++ extra)
     (hextra : ∀ g ∈ extra, IsSiblingFlow m.comps s g) : b'.procType = b.procType := by
   rw [ht.procType, ht'.procType, hflows, List.any_append, List.any_append,
     any_kind_copies s hne .infFreq rfl, any_kind_copies s hne .infDens rfl,
@@ -488,7 +488,7 @@ theorem perStrain_agg {m m' : Model α} {s : Strat α} {b b' : Backend} (ok : St
     (hstr : m'.strats = m.strats ++ [s]) (hstrains : m'.strains = m.strains)
     (hinf : m'.infectious = m.infectious) (hcats : m'.mixingCats = m.mixingCats)
     (hcomps : m'.comps = stratifyComps m.comps s) (extra : List (Flow α))
-    (hflows : m'.flows = m.flows.flatMap (copies s) ++ extra)
+    (hflows : m'.flows = m.flows.flatMap (copiesA s) ++ extra)
     (hextra : ∀ g ∈ extra, IsSiblingFlow m.comps s g)
     (hne : s.strata ≠ []) (hname : s.name ≠ "strain")
     (x' : List α) (hx : x'.length = m'.comps.length) (mix : Matrix α) :
@@ -516,7 +516,7 @@ section
 variable {α : Type} [Field α] [LT α] [DecidableLT α]
 
 theorem strainOf_copy {comps : List Comp} {s : Strat α} (hfresh : freshFor comps s = true)
-    (hname : s.name ≠ "strain") (f g : Flow α) (hg : g ∈ copies s f)
+    (hname : s.name ≠ "strain") (f g : Flow α) (hg : g ∈ copiesA s f)
     (hdst : ∀ d, f.dst = some d → d ∈ comps) : strainOf g = strainOf f := by
   obtain ⟨st, _, h2⟩ := copies_ends s f g hg
   unfold strainOf
@@ -534,7 +534,7 @@ theorem strainOf_copy {comps : List Comp} {s : Strat α} (hfresh : freshFor comp
 
 theorem multFn_copy {m m' : Model α} {s : Strat α} (hfresh : freshFor m.comps s = true)
     (hname : s.name ≠ "strain") (hcat : m.mixingCats = [[]]) (hcats : m'.mixingCats = m.mixingCats)
-    (hstrains : m'.strains = m.strains) (ps : List (List α)) (f g : Flow α) (hg : g ∈ copies s f)
+    (hstrains : m'.strains = m.strains) (ps : List (List α)) (f g : Flow α) (hg : g ∈ copiesA s f)
     (hdst : ∀ d, f.dst = some d → d ∈ m.comps) : multFn m' ps g = multFn m ps f := by
   unfold multFn
   rw [catOf_single m hcat, catOf_single m' (by rw [hcats]; exact hcat), hstrains,
